@@ -122,6 +122,31 @@ Proof.
       intros [<-|[]]. destruct Hto as [_ [Hlo _]]. rewrite (ext_label_some _ _ _ _ _ He2 Hlx) in Hlo. discriminate.
 Qed.
 
+(* the root stays node 0 only if every feature of the loop is mentioned *)
+Lemma add_free_root_nz occ : forall fs root s root' s', root <> 0 ->
+  add_free rc occ fs root s = Some (root', s') -> root' = root.
+Proof.
+  induction fs as [|i r IH]; intros root s root' s' Hr H; cbn [add_free] in H; [now injection H as <- _|].
+  destruct (mem i occ); [exact (IH _ _ _ _ Hr H)|].
+  destruct (Nat.eqb_spec root 0) as [E|_]; [contradiction|].
+  destruct (add_literal_node rc i root s) as [s2|]; [|discriminate]. exact (IH _ _ _ _ Hr H).
+Qed.
+
+Lemma add_free_root0 occ : forall fs s s', Inv (ls_g s) -> sg_alive (ls_g s) 0 = true ->
+  add_free rc occ fs 0 s = Some (0, s') -> forall f, In f fs -> mem f occ = true.
+Proof.
+  induction fs as [|i r IH]; intros s s' HI H0 H f Hf; [destruct Hf|]. cbn [add_free] in H.
+  destruct (mem i occ) eqn:Ei.
+  - destruct Hf as [<-|Hf]; [exact Ei|exact (IH s s' HI H0 H f Hf)].
+  - exfalso. cbn [Nat.eqb] in H.
+    destruct (add_node rc GAnd (ls_g s)) as [x g1] eqn:Ha.
+    destruct (ls_add_edge x 0 (with_g s g1)) as [s1|]; [|discriminate]. cbn [option_map] in H.
+    destruct (add_literal_node rc i x s1) as [s2|]; [|discriminate].
+    pose proof (add_node_fresh rc _ _ _ _ HI Ha) as Hfresh.
+    assert (Hx0 : x <> 0) by (intros ->; unfold sg_alive in H0; rewrite Hfresh in H0; discriminate).
+    pose proof (add_free_root_nz occ r x s2 0 s' Hx0 H). congruence.
+Qed.
+
 (* the root after the free-feature loop has the value of node 0 *)
 Lemma free_result_val s root' s' a b : free_result s root' s' ->
   GV (ls_g s) a 0 b -> GV (ls_g s') a root' b.
